@@ -8,7 +8,9 @@ V = os.path.dirname(os.path.dirname(os.path.abspath(__file__)))
 
 import sys
 sys.path.insert(0, os.path.dirname(os.path.abspath(__file__)))
-from props import MANIFESTS as CHECKS  # noqa: E402
+from props import MANIFESTS as _ALL  # noqa: E402
+_claimed = {l.strip() for l in open(os.path.join(os.path.dirname(os.path.abspath(__file__)), 'claimed.txt')) if l.strip() and not l.startswith('#')}
+CHECKS = {k: v for k, v in _ALL.items() if k in _claimed}
 from notapplicable import NOT_APPLICABLE  # noqa: E402
 
 
